@@ -363,6 +363,10 @@ class Validator:
         ast.fix_missing_locations(new)
         code = compile(ast.Module(body=[new], type_ignores=[]), "<xf:%s>" % spec["id"], "exec")
         raise_lines = {n.lineno for n in ast.walk(new) if isinstance(n, (ast.Raise, ast.Assert))}
+        # an exception on the line of an `assert` that is not an AssertionError comes from evaluating the test (a data
+        # operation such as a subscript), not from the statement
+        self.assert_only = {n.lineno for n in ast.walk(new) if isinstance(n, ast.Assert)} - \
+            {n.lineno for n in ast.walk(new) if isinstance(n, ast.Raise)}
         return mod, code, new.name, ins.table, raise_lines
 
     def run_function(self, spec, ft):
@@ -440,7 +444,9 @@ class Validator:
                     line = tb.tb_lineno
                 tb = tb.tb_next
             explicit = getattr(exc, "_xf_injected", False) or (line in raise_lines and exc.__traceback__ is not None
-                                                                and self._raised_in_function(exc, spec["id"]))
+                                                                and self._raised_in_function(exc, spec["id"])
+                                                                and not (line in self.assert_only and
+                                                                         not isinstance(exc, AssertionError)))
             if not explicit:
                 self.stats["implicit"] += 1
                 continue
